@@ -166,6 +166,10 @@ def run(ctx: Ctx) -> None:
         want = safe_call(lambda: build(text_to_html(d)).get_html_string(i, eol))
         if out != want:
             return "a text child is not emitted as its per-character escaped form"
+        # ... on every way of obtaining the markup
+        m = trees.routes_disagree(build(d, share=True))
+        if m:
+            return "a text child is not emitted as its per-character escaped form on every rendering route: " + m
         return None
 
     differential(
